@@ -26,6 +26,7 @@ SEMANTIC = [
     ("decreases not satisfied", "decreases"),
     ("could not prove termination", "termination"),
     ("loop invariant not satisfied", "invariant"),
+    ("unable to prove post-condition of closure", "closure-postcondition"),
     ("unreachable", "panic"),
     ("panic", "panic"),
     ("possible bit shift underflow/overflow", "overflow"),
@@ -286,7 +287,7 @@ def build_fn(item, spec, canary, log):
         where, anchor, proof = h
         if not _ghost_only(proof):
             raise ValueError("%s: hint is not ghost-only code: %r" % (fn_id, proof[:80]))
-        if where in ("loop_body_start", "loop_body_end"):
+        if where in ("loop_body_start", "loop_body_end", "after_loop"):
             loop_hints.append(h)      # keyed by loop ordinal, not by statement text: survives edits of the loop body
             continue
         if where == "body_start":
@@ -336,6 +337,8 @@ def build_fn(item, spec, canary, log):
         o = _loop_body_open(mbody, kws[li])
         if where == "loop_body_start":
             inserts.append((o + 1, "\n" + proof + "\n"))
+        elif where == "after_loop":
+            inserts.append((match_close(mbody, o) + 1, "\n" + proof + "\n"))      # right after the loop's closing brace
         else:
             inserts.append((match_close(mbody, o), "\n" + proof + "\n"))
     # stable order: for equal positions the loop contract (inserted before `{`) must come before body-start text
